@@ -1,165 +1,11 @@
 /-
   C08 — parsing is total, one instruction per line, malformed lines rejected in place.
-  ONLY property theorems and their non-vacuity examples live here.
-  (Totality / absence of panics: `parseText` is a total Lean function whose only outcomes
-  are `.ok` and `.error`; that the real index arithmetic never unwinds is covered by the
-  correspondence check, which runs every case under `catch_unwind`.)
+  Props/C08Core.lean    : theorems about the suffix-form parser model (one instruction per line,
+                          blank/comment lines, first malformed line wins, the malformed classes).
+  Props/C08Indexed.lean : the index-faithful twin (explicit `index`, `line_text[index]`,
+                          `index -= 1`, `index = end_index` with a `panic` outcome exactly where
+                          Rust would unwind) never panics and computes exactly what the suffix
+                          model computes — so the theorems above, and C01's round trip, hold of it.
 -/
-import DuckModel.Parser
-import DuckModel.Spec.Render
-import DuckModel.Lemmas.ParserLemmas
-
-namespace Duck
-open Duck.Spec
-
-/-- a line that parses and is not an include directive nor an unknown directive -/
-def LineOK (l : Str) : Prop :=
-  ∃ ty, parseLine l = .ok ty ∧ ∀ c a, ty = .preProcess c a → c = some printName
-
-/-- Without include directives (and with every directive known) the parse of a list of lines
-    yields exactly one instruction per line, in order, numbered consecutively. -/
-theorem C08_one_per_line (inc : Str → Except ParseFail (List Instruction)) (fs : Fs)
-    (src : Option Str) (n : Nat) (ls : List Str) (is : List Instruction)
-    (hp : parseLinesWith inc fs src n ls = .ok is)
-    (hno : ∀ l ∈ ls, ∀ a, parseLine l ≠ .ok (.preProcess (some includeName) a)) :
-    is.length = ls.length ∧
-      ∀ k (hk : k < is.length), (is[k]).mi = { line := some (n + k), source := src } :=
-  one_per_line inc fs src ls n is hp hno
-
-/-- the same for a whole text: instruction count = line count, k-th instruction has line k+1 -/
-theorem C08_text_one_per_line (text : Str) (is : List Instruction)
-    (hp : parseText text = .ok is)
-    (hno : ∀ l ∈ lines text, ∀ a, parseLine l ≠ .ok (.preProcess (some includeName) a)) :
-    is.length = (lines text).length ∧
-      ∀ k (hk : k < is.length), (is[k]).mi.line = some (k + 1) := by
-  unfold parseText parseTextFs at hp
-  obtain ⟨h1, h2⟩ := one_per_line _ _ none (lines text) 1 is hp hno
-  refine ⟨h1, fun k hk => ?_⟩
-  rw [h2 k hk, Nat.add_comm]
-
-/-- blank lines and `#` comment lines become empty instructions -/
-theorem C08_blank_or_comment_is_empty (l : Str)
-    (h : trim l = [] ∨ (trim l).head? = some '#') : parseLine l = .ok .empty := by
-  rcases h with h | h
-  · exact parseLine_of_trim_nil l h
-  · cases ht : trim l with
-    | nil => exact parseLine_of_trim_nil l ht
-    | cons c r =>
-      rw [ht] at h
-      simp only [List.head?_cons, Option.some.injEq] at h
-      subst h
-      exact parseLine_of_trim_hash l r ht
-
-/-- the first malformed line fails the whole parse with its kind and its own line number,
-    wherever it stands among well-formed lines -/
-theorem C08_error_in_place (inc : Str → Except ParseFail (List Instruction)) (fs : Fs)
-    (src : Option Str) (n : Nat) (pre : List Str) (bad : Str) (post : List Str) (k : PErr)
-    (hpre : ∀ l ∈ pre, LineOK l) (hbad : parseLine bad = .error k) :
-    parseLinesWith inc fs src n (pre ++ bad :: post) =
-      .error ⟨k, { line := some (n + pre.length), source := src }⟩ :=
-  parseLinesWith_error_after_good inc fs src pre (bad :: post) _ (n + pre.length) n
-    (fun l hl => hpre l hl) rfl (parseLinesWith_cons_error inc fs src _ bad post k hbad)
-
-/-- a directive that is neither `print` nor `include_files` is rejected in place -/
-theorem C08_unknown_directive_in_place (inc : Str → Except ParseFail (List Instruction)) (fs : Fs)
-    (src : Option Str) (n : Nat) (pre : List Str) (bad : Str) (post : List Str)
-    (c : Str) (a : Option (List Str))
-    (hpre : ∀ l ∈ pre, LineOK l) (hbad : parseLine bad = .ok (.preProcess (some c) a))
-    (hc : c ≠ printName ∧ c ≠ includeName) :
-    parseLinesWith inc fs src n (pre ++ bad :: post) =
-      .error ⟨.unknownPreProcessorCommand, { line := some (n + pre.length), source := src }⟩ :=
-  parseLinesWith_error_after_good inc fs src pre (bad :: post) _ (n + pre.length) n
-    (fun l hl => hpre l hl) rfl (parseLinesWith_cons_unknown inc fs src _ bad post c a hbad hc.1 hc.2)
-
-/-! ### the malformed-line classes named by the property -/
-
-/-- an unterminated quoted argument (any content, any well-formed line before it) -/
-theorem C08_unterminated_quote (ch : Choices) (i : ScriptInstr) (hi : InstrOK i) (hc : ChoicesOK ch)
-    (hcmd : i.command ≠ none) (hnc : ch.comment = none) (k : Nat) (s : Str) :
-    parseLine (ch.lead ++ renderBody ch i ++ spaces (k + 1) ++ '"' :: escape s ++ ch.trail) =
-      .error .missingEndQuotes :=
-  unterminated_quote ch i hi hc hcmd hnc k s
-
-/-- an escape that is not one of the documented ones, inside a quoted argument -/
-theorem C08_bad_escape (ch : Choices) (i : ScriptInstr) (hi : InstrOK i) (hc : ChoicesOK ch)
-    (hcmd : i.command ≠ none) (hnc : ch.comment = none) (k : Nat) (s : Str) (c : Char) (rest : Str)
-    (hbad : c ≠ '\\' ∧ c ≠ '"' ∧ c ≠ 'n' ∧ c ≠ 'r' ∧ c ≠ 't' ∧ c ≠ '$') (hws : isWs c = false) :
-    parseLine (ch.lead ++ renderBody ch i ++ spaces (k + 1) ++ '"' :: escape s ++ '\\' :: c :: rest) =
-      .error .controlWithoutValidValue :=
-  bad_escape ch i hi hc hcmd hnc k s c rest hbad hws
-
-/-- a line whose first token begins with a double quote -/
-theorem C08_quote_starts_name (lead rest : Str) (hl : ∀ c ∈ lead, isWs c = true) :
-    parseLine (lead ++ '"' :: rest) = .error .invalidQuotesLocation :=
-  quote_starts_name lead rest hl
-
-/-- a command written after `out =` that begins with a double quote -/
-theorem C08_quote_starts_command (o : Str) (ho : NameOK o ∧ NoEq o ∧ FirstOK o) (a b : Nat) (rest : Str) :
-    parseLine (o ++ spaces a ++ '=' :: spaces b ++ '"' :: rest) = .error .invalidQuotesLocation :=
-  quote_starts_command o ho a b rest
-
-/-- a label that begins with a double quote -/
-theorem C08_quote_starts_label (rest : Str) :
-    parseLine (':' :: '"' :: rest) = .error .invalidQuotesLocation :=
-  quote_starts_label rest
-
-/-- a backslash inside the first token (label, output variable or command); a label whose
-    name starts with a double quote is the class of `C08_quote_starts_label` instead -/
-theorem C08_backslash_in_name (lead p rest : Str) (hl : ∀ c ∈ lead, isWs c = true)
-    (hp : p ≠ [] ∧ (∀ c ∈ p, isWs c = false ∧ c ≠ '#' ∧ c ≠ '\\' ∧ c ≠ '=') ∧ p.head? ≠ some '"' ∧
-      p.head? ≠ some '!')
-    (hlabel : ∀ q, p ≠ ':' :: '"' :: q) :
-    parseLine (lead ++ p ++ '\\' :: rest) = .error .invalidControlLocation :=
-  backslash_in_name_fixed lead p rest hl hp hlabel
-
-/-- `!` with no command -/
-theorem C08_directive_without_command (lead : Str) (k : Nat) (trail : Str)
-    (hl : ∀ c ∈ lead, isWs c = true) (ht : ∀ c ∈ trail, isWs c = true) :
-    parseLine (lead ++ '!' :: spaces k ++ trail) = .error .preProcessNoCommandFound :=
-  directive_without_command lead k trail hl ht
-
-/-! ### the hypotheses are satisfiable (non-vacuity) -/
-
-def C08_sampleInstr : ScriptInstr :=
-  { label := some ":l".toList, output := some "x".toList, command := some "cmd".toList,
-    args := some ["".toList, "a b".toList, "x\"y\\".toList, "#".toList, "=".toList,
-      "${v}".toList, "\n".toList] }
-
-def C08_sampleChoices : Choices :=
-  { lead := " \t".toList, trail := "\r".toList, afterLabel := 2, eqBefore := 1, eqAfter := 3,
-    args := [(0, true), (2, false)] }
-
-/-- blank lines, comment lines and rendered lines are `LineOK` -/
-example : LineOK [] :=
-  ⟨.empty, C08_blank_or_comment_is_empty [] (Or.inl rfl), by intro c a h; cases h⟩
-
-example : LineOK "  # note ".toList :=
-  ⟨.empty, C08_blank_or_comment_is_empty _ (Or.inr (by decide)), by intro c a h; cases h⟩
-
-example : LineOK (renderLine C08_sampleChoices C08_sampleInstr) :=
-  ⟨_, line_roundtrip _ _ (instrOK_of_b _ (by decide)) (choicesOK_of_b _ (by decide)),
-    expected_not_pre _⟩
-
-/-- a malformed line for `C08_error_in_place` -/
-example : parseLine ":\"".toList = .error .invalidQuotesLocation := C08_quote_starts_label []
-
-/-- an unknown directive for `C08_unknown_directive_in_place` -/
-example : parseLine "!foo".toList = .ok (.preProcess (some "foo".toList) none) ∧
-    "foo".toList ≠ printName ∧ "foo".toList ≠ includeName := by
-  refine ⟨?_, by decide, by decide⟩
-  rw [parseLine_of_trim_bang _ "foo".toList (by decide)]
-  simp [parsePreProcessLine, ppCommand, parseArguments_eol EolTail.nil]
-
-/-- the hypotheses of `C08_unterminated_quote` / `C08_bad_escape` -/
-example : InstrOK C08_sampleInstr ∧ ChoicesOK C08_sampleChoices ∧ C08_sampleInstr.command ≠ none ∧
-    C08_sampleChoices.comment = none :=
-  ⟨instrOK_of_b _ (by decide), choicesOK_of_b _ (by decide), by decide, rfl⟩
-
-example : ('x' ≠ '\\' ∧ 'x' ≠ '"' ∧ 'x' ≠ 'n' ∧ 'x' ≠ 'r' ∧ 'x' ≠ 't' ∧ 'x' ≠ '$') ∧ isWs 'x' = false := by
-  decide
-
-/-- the hypotheses of `C08_quote_starts_command` -/
-example : NameOK "out".toList ∧ NoEq "out".toList ∧ FirstOK "out".toList :=
-  ⟨nameOK_of_b _ (by decide), noEq_of_b _ (by decide), firstOK_of_b _ (by decide)⟩
-
-end Duck
+import DuckModel.Props.C08Core
+import DuckModel.Props.C08Indexed
